@@ -10,7 +10,8 @@ namespace Geodesy
 namespace Data
 variable {R : Type}
 
-/-- a coordinate tuple of dimension 2, 3 or 4: its elements in order -/
+/-- a coordinate tuple (of dimension 2, 3 or 4 for the library's own types, any dimension for a user's): its
+elements in order -/
 structure Tuple (R : Type) where
   vals : List R
   deriving Inhabited
@@ -53,6 +54,13 @@ def updateStep (value : List R) (vals : List R) (i : Nat) : List R :=
 /-- `update(&[f64])`: `for i in 0..min(value.len(), dim) { set_nth_unchecked(i, value[i]) }` -/
 def update (t : Tuple R) (value : List R) : Tuple R :=
   ⟨(List.range (min value.length t.dim)).foldl (updateStep value) t.vals⟩
+
+/-- `scale` (trait default): every element of the tuple, whatever its dimension, times the factor -/
+def scale [Mul R] (t : Tuple R) (factor : R) : Tuple R := ⟨t.vals.map fun v => v * factor⟩
+
+/-- `dot` (trait default): the products of the elements, added up from the first one on -/
+def dot [Mul R] [Add R] (zero nan : R) (t other : Tuple R) : R :=
+  (List.range t.dim).foldl (fun r i => r + t.nth nan i * other.nth nan i) zero
 end Tuple
 
 /-- the kinds of container elements and adapters `CoordinateSet` is implemented for -/
